@@ -12,7 +12,8 @@
 (* SilentTruncation (a SHORTER request that happens to name the smallest   *)
 (* names in their sorted positions is accepted and the other models are    *)
 (* dropped without a word), LongerIsIndexError (a longer request never     *)
-(* reaches the "Sorting failed" test: it dies on the index).               *)
+(* reaches the "Sorting failed" test: it dies on the index),               *)
+(* OwnNamesNotStripped (only the request is stripped of trailing blanks).  *)
 (***************************************************************************)
 EXTENDS Integers, Sequences, FiniteSets, TLC, Json
 CONSTANTS MaxLen, NNames
@@ -59,5 +60,9 @@ NoTruncation == Outcome = "ok" => Len(call.req) = Len(call.names)
 \* ... and exactly when it happens: the request lists, each in its sorted position, the k smallest names of the object
 TruncationOnlyOfSmallest == (Outcome = "ok" /\ Len(call.req) < Len(call.names)) =>
                               \A i \in 1..Len(call.req) : call.req[i] = call.names[A[R[i]]]
-EmitInv == PrintT(ToJson([names |-> call.names, req |-> call.req, out |-> Outcome, new_names |-> NewNames, new_rows |-> NewRows]))
+\* named behaviour OwnNamesNotStripped: only the REQUEST is stripped of trailing blanks; an object whose own names carry them (a file
+\* read with ConvolvedFluxes.read and not through Models) is refused whatever is asked of it, because 'ma  ' = 'ma' is false
+OutcomePaddedObject == IF OutOfRange THEN "IndexError" ELSE "Exception"
+PaddedObjectNeverAccepted == OutcomePaddedObject # "ok"
+EmitInv == PrintT(ToJson([names |-> call.names, req |-> call.req, out |-> Outcome, out_padded_obj |-> OutcomePaddedObject, new_names |-> NewNames, new_rows |-> NewRows]))
 =============================================================================
